@@ -7,7 +7,8 @@ exchange sequences (echo, log+echo+metadata, raise) with/without header, the una
 then close" call scripts.  Each program is run over every transport configuration:
 mem, pipe, unix (+ tcp, shm, subprocess in thorough) and HTTP under the grid
 {max_response_bytes: None, 1, 10^6} x {server compression off/on} x {client request compression off/on} x
-{externalisation off / every batch}.
+{externalisation off / every batch}, plus HTTP with the per-process call-state cache disabled (a replica / restarted
+worker: every continuation re-opens the call token) under cap {None, 1} x server compression off/on.
 
 Oracle: on every configuration, the sequence of non-log events (header, batches with user metadata, result,
 error type and message-carrying text, end) equals the reference interpreter's prediction, and the sequence of
@@ -55,6 +56,11 @@ def configs(ctx: Ctx) -> list[dict[str, Any]]:
             for ccomp in (None, 1):
                 for ext in (False, True):
                     cfgs.append({"kind": "http", "cap": cap, "scomp": scomp, "ccomp": ccomp, "ext": ext})
+    # a worker that has never seen the call (replica / restart): the per-process call-state cache is disabled, so every
+    # continuation turn re-opens the call token instead of using cached call state
+    for cap in (None, 1):
+        for scomp in (None, 1):
+            cfgs.append({"kind": "http", "cap": cap, "scomp": scomp, "ccomp": None, "ext": False, "cold": True})
     return cfgs
 
 
@@ -90,13 +96,15 @@ def open_conn(cfg: dict[str, Any]) -> tuple[Conn, Any]:
             ckw["external_location"] = ExternalLocationConfig(url_validator=None, retry_delay_seconds=0.0)
     if cfg["kind"] == "http":
         http = {"max_response_bytes": cfg["cap"], "compression_level": cfg["scomp"], "compression_level_client": cfg["ccomp"]}
+        if cfg.get("cold"):
+            http["call_state_cache_entries"] = 0
         return Conn("http", http=http, server_kwargs=skw, client_kwargs=ckw), st
     return Conn(cfg["kind"], server_kwargs=skw, client_kwargs=ckw), st
 
 
 def cfg_name(cfg: dict[str, Any]) -> str:
     if cfg["kind"] == "http":
-        return f"http(cap={cfg['cap']},scomp={cfg['scomp']},ccomp={cfg['ccomp']},ext={cfg['ext']})"
+        return f"http(cap={cfg['cap']},scomp={cfg['scomp']},ccomp={cfg['ccomp']},ext={cfg['ext']}{',cold' if cfg.get('cold') else ''})"
     return cfg["kind"] + ("+ext" if cfg.get("ext") else "")
 
 
